@@ -141,10 +141,7 @@ where
                 }
             };
             tokio::select! {
-                () = shutdown => {
-                    #[cfg(humphrey_verif)]
-                    crate::verif::point("Loop_Exit", 0, 0);
-                    break Ok(()); }
+                () = shutdown => { break Ok(()); }
                 s = socket.accept() => {
                     #[cfg(humphrey_verif)]
                     crate::verif::point("Accept_Return", s.as_ref().map_or(-1, |x| x.1.port() as i64), 0);
